@@ -15,7 +15,9 @@ CONSTANTS MVals,       \* measure values (halves) an update may write, NoM inclu
           Encs,        \* "auto", "nested-set", "near-tree", "chain"
           MaxUpd,      \* measure updates per script
           MaxEdge,     \* covering-edge writes per script (0 at the OehIndex level)
-          Legacy       \* self-test: remove does not reach the index
+          Legacy,      \* self-test: remove does not reach the index
+          Ordered      \* TRUE: only the DAGs whose edges go from a larger to a smaller number (every DAG up to
+                       \* renaming of its nodes, 2^(n(n-1)/2) of them) instead of every labelled DAG
 
 VARIABLES hist, nupd, nedge
 vars == <<cover, meas, mlab, ixs, ixc, ixm, ixn, hist, nupd, nedge>>
@@ -32,7 +34,7 @@ MV4 == {NoM, 4, 5, -2}
 
 N == Cardinality(Nodes)
 Pairs == {e \in Nodes \X Nodes : e[1] # e[2]}
-DAGs == {c \in SUBSET Pairs : Acyclic(c)}
+DAGs == IF Ordered THEN SUBSET {e \in Pairs : e[1] > e[2]} ELSE {c \in SUBSET Pairs : Acyclic(c)}
 IsTree(c) == \A n \in Nodes : Cardinality({e \in c : e[1] = n}) <= 1
 
 SetSeq(S) == CHOOSE s \in [1..Cardinality(S) -> S] : \A i, j \in 1..Cardinality(S) : i < j => s[i] # s[j]
